@@ -170,6 +170,23 @@ func c04BatchExec(x *Ctx) {
 				holdTag[tag] = q.hold
 				batch = append(batch, q)
 			}
+			// a walk that starts from a number which is only being bound by another member of the batch would copy
+			// a fid that is not complete yet (the client may not use a fid before its Rattach / Rwalk): such
+			// walks start from fid 0 instead. Binding, probing and invalidating such a number stays in.
+			for bi, q := range batch {
+				if uint8(q.op.a(fType)) != Twalk {
+					continue
+				}
+				src := uint32(q.op.a(fFid))
+				for bj, o := range batch {
+					ot := uint8(o.op.a(fType))
+					if bj != bi && ((ot == Tattach && uint32(o.op.a(fFid)) == src) || (ot == Twalk && uint32(o.op.a(fFid2)) == src)) {
+						q.op.A[fFid] = 0
+						q.msg = c45Msg(q.op, q.msg.Tag, peer.Dotu, ms)
+						break
+					}
+				}
+			}
 			logStart := len(fs.Log)
 			if c.cfg("sameseg") != 0 {
 				var ms []*Msg
